@@ -573,6 +573,18 @@ class C03(Check):
         yield self.mk("GET", [handler(act=(200, [("Date", "a"), ("date", "b"), ("DATE", "c"), ("Server", "d"), ("server", "e")], (b"12345", False)))])
         yield self.mk("GET", [handler(act=(404, [("Content-Type", "a"), ("content-type", "b"), ("Content-Length", "5"), ("Connection", "close")],
                                            (b"12345", False)))])
+        # legal values at and beyond natural limits: long header values, many headers, every token character in a name,
+        # long paths, the extreme status codes
+        yield self.mk("GET", [handler(act=(200, [("X-Long", "v" * 8190), ("X-Longer", "w" * 70000)], (b"b", False)))])
+        yield self.mk("GET", [handler(act=(200, [("X-%03d" % i, str(i)) for i in range(300)], (b"b", False)))])
+        yield self.mk("GET", [handler(act=(404, [(TCHARS, "all token characters"), ("X", "\t tab and \x7f and \xff \x01")], None))])
+        for n in (255, 256, 4096, 60000):
+            yield self.mk("GET", [handler(act=(200, None, (b"p", False)))], path="/c/" + "p" * n)
+            yield self.mk("GET", [handler(can=False)], path="/c/" + "q" * n)
+        for st in (100, 101, 102, 103, 226, 300, 308, 399 if False else 307, 400, 418, 451, 499 if False else 431, 511):
+            for b in (None, (b"x", False)):
+                yield self.mk("GET", [handler(act=(st, None, b))])
+                yield self.mk("HEAD", [handler(act=(st, H(1), b))])
         # falsy but valid header values, names that differ only in letter case
         yield self.mk("GET", [handler(act=(200, [("X-Empty", ""), ("X-Zero", "0"), ("x-empty", " "), ("X-EMPTY", "False")], (b"b", False)))])
         yield self.mk("GET", [handler(act=(404, [("X-Empty", "")], None))])
